@@ -336,6 +336,32 @@ pub fn type_check_rec<'a>(
                     let ((borrowed_typing_context, borrowed_definitions_context), _) =
                         &mut (*guard);
 
+                    // Infer the type of the annotation.
+                    let (annotation, annotation_type) = type_check_rec(
+                        source_path,
+                        source_contents,
+                        annotation,
+                        borrowed_typing_context,
+                        borrowed_definitions_context,
+                        errors,
+                    );
+
+                    // Check that the type of the annotation is the type of all types.
+                    if !unify(&annotation_type, &type_term, borrowed_definitions_context) {
+                        errors.push(throw::<Error>(
+                            "This is not a type:",
+                            source_path,
+                            annotation
+                                .source_range
+                                .map(|source_range| listing(source_contents, source_range))
+                                .as_deref(),
+                            None,
+                        ));
+                    }
+
+                    // Compute this once rather than multiple times.
+                    let annotation = Rc::new(annotation);
+
                     // Infer the type of the definition.
                     let (definition, definition_type) = type_check_rec(
                         source_path,
@@ -347,7 +373,7 @@ pub fn type_check_rec<'a>(
                     );
 
                     // Check the type against the annotation.
-                    if !unify(&definition_type, annotation, borrowed_definitions_context) {
+                    if !unify(&definition_type, &annotation, borrowed_definitions_context) {
                         errors.push(throw::<Error>(
                             &format!(
                                 "This has type {}, but it was expected to have type {}:",
@@ -363,7 +389,7 @@ pub fn type_check_rec<'a>(
                         ));
                     }
 
-                    (*variable, annotation.clone(), Rc::new(definition))
+                    (*variable, annotation, Rc::new(definition))
                 })
                 .collect();
 
